@@ -16,6 +16,7 @@ mod rcase;
 mod rprops;
 mod views;
 mod c17;
+mod opviews;
 mod coeffs;
 mod util;
 
@@ -75,8 +76,19 @@ fn main() {
             let mut rng = Rng::new(seed ^ 0xC03EF);
             coeffs::generate(&mut out, &mut rng, if thorough { 12000 } else { 1500 }, if thorough { 24 } else { 8 }, &[0, 1, 2, 3, 4, 5, 6]);
         }
-        "C04" => c04::generate(&mut out, seed, thorough),
-        "C05" => rprops::gen_c05(&mut out, seed, thorough),
+        "C04" => {
+            c04::generate(&mut out, seed, thorough);
+            // views obtained by splitting are views too: the column / row range given to split_by_* must lie inside
+            // the view it is applied to (the requests and their oracle are C14's)
+            c14::generate(&mut out, seed, false);
+        }
+        "C05" => {
+            rprops::gen_c05(&mut out, seed, thorough);
+            // the other operations the property names: alpha multiply / divide, component conversion, colour mapping
+            let mut rng = Rng::new(seed ^ 0xC05_0F);
+            c06::generate_views(&mut out, &mut rng, thorough);
+            opviews::generate(&mut out, &mut rng, thorough);
+        }
         "C07" => rprops::gen_c07(&mut out, seed, thorough),
         "C09" => rprops::gen_c09(&mut out, seed, thorough),
         "C10" => {
@@ -86,7 +98,12 @@ fn main() {
         }
         "C11" => rprops::gen_c11(&mut out, seed, thorough),
         "C12" => rprops::gen_c12(&mut out, seed, thorough),
-        "C13" => rprops::gen_c13(&mut out, seed, thorough),
+        "C13" => {
+            rprops::gen_c13(&mut out, seed, thorough);
+            let mut rng = Rng::new(seed ^ 0xC13_0F);
+            c06::generate_views(&mut out, &mut rng, false);
+            opviews::generate(&mut out, &mut rng, false);
+        }
         "C18" => {
             rprops::gen_c18(&mut out, seed, thorough);
             let mut rng = Rng::new(seed ^ 0xC18EF);
